@@ -267,6 +267,10 @@ def fresh_worker_factory(R, n_cases, n_cli):
             cases.append(it)
 
         collect()
+        if k % 4 == 0:
+            # a module whose stored form is large (a few hundred statements), written by the real command line tool
+            big = "export function f ( int a ) -> int {\n%s return a ;\n}\n" % "".join("a = a + %d ;\n" % (i % 7) for i in range(260))
+            cases.insert(0, Item(big, "f", [({"a": 1}, {})], bool(k % 8)))
         for i, (src, entry, ins) in enumerate(POOL):
             if i % 16 == k % 16 or n_cases > 100:
                 cases.append(Item(src, entry, [(a, {}) for a in ins], bool((i + k) % 2)))
@@ -286,6 +290,11 @@ def fresh_worker_factory(R, n_cases, n_cli):
                     sp = os.path.join(work, "cli%d.nsl" % i)
                     path = os.path.join(work, "cli%d.nslir" % i)
                     open(sp, "w").write(it.src)
+                    # the same source was compiled to the same output path before, at the other optimisation level
+                    subprocess.run([sys.executable, os.path.join(adapter.REPO, "nslc.py"), "-O", "0" if it.optimize else "1",
+                                    "-o", path, sp], capture_output=True, text=True, cwd=work,
+                                   env=dict(os.environ, PYTHONPATH=adapter.REPO), timeout=300)
+                    ctx.label("nslc-output-path-rewritten")
                     p = subprocess.run([sys.executable, os.path.join(adapter.REPO, "nslc.py"), "-O", "1" if it.optimize else "0",
                                         "-o", path, sp], capture_output=True, text=True, cwd=work,
                                        env=dict(os.environ, PYTHONPATH=adapter.REPO), timeout=300)
